@@ -47,12 +47,14 @@ Definition get_bound (D : N) : N := GET_MAX_ITERATIONS * D.
 Definition stop_bound (D peers : N) : N := peers * D + D.
 
 (* observed durations (ms) against the bounds; [slack] covers scheduling noise of the harness *)
-Inductive opkind := OpLookup | OpPut | OpGet | OpStop (peers : N).
+(* OpWait: a single wait of an operation (a dial, a send, the wait for one reply) *)
+Inductive opkind := OpLookup | OpPut | OpGet | OpStop (peers : N) | OpWait.
 Definition within_bound (k : opkind) (D slack observed : N) : bool :=
   observed <=? slack +
     match k with
     | OpLookup => lookup_bound D | OpPut => put_bound D | OpGet => get_bound D
     | OpStop peers => stop_bound D peers
+    | OpWait => D
     end.
 
 (* ---------------- (B) locks ---------------- *)
